@@ -1,7 +1,7 @@
 (* C19 — functools.partial objects get the signature Python actually enforces. *)
 From Sigtools.Model Require Import Base Bind Roles Algebra.
 From Sigtools.Model Require Import Universe.
-From Sigtools.Proofs Require Import SmallModel Basics Deciders SweepDefs SweepDefs2 Bounded2 MaskLaws MaskExact MaskNamesLib MaskNames MaskNamesProps.
+From Sigtools.Proofs Require Import SmallModel Basics Deciders SweepDefs SweepDefs2 Bounded2 MaskLaws MaskExact MaskNamesLib MaskNames MaskNamesProps MaskAlgebra PartialShape PartialPerm.
 
 Theorem C19_wf s n kw pobj r : sig_partial s n kw pobj = Ok r -> validate (params r) = true.
 Proof. exact (sig_partial_wf s n kw pobj r). Qed.
@@ -80,3 +80,18 @@ Print Assumptions C19_partial_names_exact_refuted_po.
 Theorem C19_names_avoid_passable_n : forall (ps : list param) (n : nat) (names0 : list name), names_avoid_po ps names0 = true -> names_avoid_stars ps names0 = true -> names_passable_n ps n names0 = true.
 Proof. exact @MaskNamesProps.names_avoid_passable_n. Qed.
 Print Assumptions C19_names_avoid_passable_n.
+
+(* ---- the shape clauses for all valid signatures (Proofs/PartialShape.v) and permutation invariance of the bound
+   keywords (Proofs/PartialPerm.v) ---- *)
+Theorem C19_partial_shape : forall (s : sigT) (n : nat) (kw : list (name * N)) (pobj : N) (r : sigT), valid_sig (params s) = true -> NoDup (map fst kw) -> MaskNames.names_passable_n (params s) n (map fst kw) = true -> sig_partial s n kw pobj = Ok r -> let so := sort_params s in let ns := map fst kw in let pok1 := skipn (n - length (posargs so)) (pokargs so) in (exists kwo_f : list param, params r = MaskNamesLib.blk (skipn n (posargs so)) (MaskAlgebra.takew (MaskAlgebra.nh ns) pok1) (MaskAlgebra.va_form ns pok1 (varargs so)) kwo_f (varkwargs so) /\ Forall (fun p : param => pkind p = KO) kwo_f /\ Permutation.Permutation kwo_f (kwo_formP kw pok1 (kwoargs so))) /\ (forall kv : name * N, In kv (absorbed kw pok1 (kwoargs so)) -> src_get (srcs r) (fst kv) = [pobj]) /\ (forall y : name, (forall w : param, varargs so = Some w -> pname w <> y) -> ~ In y (map fst (absorbed kw pok1 (kwoargs so))) -> src_get (srcs r) y = src_get (src_pop_all (srcs s) (names_of (firstn n (posargs so ++ pokargs so)))) y) /\ deps r = dep_set (dep_incr 1 (deps s)) pobj 0 /\ dep_get (deps r) pobj = Some 0 /\ (forall f : N, f <> pobj -> dep_get (deps r) f = option_map (fun d : N => d + 1) (dep_get (deps s) f)).
+Proof. exact @PartialShape.partial_shape. Qed.
+Print Assumptions C19_partial_shape.
+
+Theorem C19_partial_shape_clauses : forall (s : sigT) (n : nat) (kw : list (name * N)) (pobj : N) (r : sigT), valid_sig (params s) = true -> NoDup (map fst kw) -> MaskNames.names_passable_n (params s) n (map fst kw) = true -> sig_partial s n kw pobj = Ok r -> let so := sort_params s in let ns := map fst kw in let pok1 := skipn (n - length (posargs so)) (pokargs so) in positional (params r) = skipn n (posargs so) ++ MaskAlgebra.takew (MaskAlgebra.nh ns) pok1 /\ has_kind VP (params r) = isSome (varargs so) && forallb (MaskAlgebra.nh ns) pok1 /\ has_kind VK (params r) = isSome (varkwargs so) /\ (forall q : param, In q (kwonly (params r)) <-> (exists q0 : param, In q0 (kwoargs so ++ map (set_kind KO) (MaskAlgebra.dropw (MaskAlgebra.nh ns) pok1)) /\ q = bindv kw q0) \/ (exists kv : name * N, In kv (absorbed kw pok1 (kwoargs so)) /\ q = newp kv)) /\ (forall kv : name * N, In kv (absorbed kw pok1 (kwoargs so)) -> src_get (srcs r) (fst kv) = [pobj]) /\ dep_get (deps r) pobj = Some 0 /\ (forall f : N, f <> pobj -> dep_get (deps r) f = option_map (fun d : N => d + 1) (dep_get (deps s) f)).
+Proof. exact @PartialShape.partial_shape_clauses. Qed.
+Print Assumptions C19_partial_shape_clauses.
+
+Theorem C19_partial_perm : forall (s : sigT) (n : nat) (kw kw' : list (name * N)) (pobj : N), valid_sig (params s) = true -> NoDup (map fst kw) -> MaskNames.names_passable_n (params s) n (map fst kw) = true -> Permutation.Permutation kw kw' -> MaskAlgebra.perm_rel (sig_partial s n kw pobj) (sig_partial s n kw' pobj).
+Proof. exact @PartialPerm.partial_perm. Qed.
+Print Assumptions C19_partial_perm.
+
